@@ -29,8 +29,8 @@ def run_c13(tier):
                       {'engine': 'seqx/c13_props', 'ops': v['ops'], 'replay_cmd': f"{b}/c13_props --replay '{v['ops']}'"})
     rep.coverage = {'states': d['states'], 'transitions': d['transitions'], 'traces_validated_against_impl': d['transitions'], 'exhaustive': d['exhaustive'],
                     'depth': d['depth'], 'objects': d['objects'], 'alphabet_size': d['alphabet'],
-                    'rule': 'BFS over all call sequences up to the depth on three objects (init/set_uri/set_external_metadata/set_access_key_and_secret/set_dimension/set_enable_multiscale/copy/destroy with NULL, empty, long and unterminated strings, valid and invalid dimension arguments); every step replays the history on the real storage.c and compares every field with a value model; allocation ledger via --wrap; every reached state is also destroyed and must leave no allocation',
-                    'events': {k: d[k] for k in ('copies', 'copies_from_source_with_dimensions', 'destroys', 'final_state_checks')},
+                    'rule': 'BFS over all call sequences up to the depth on three objects (init/set_uri/set_external_metadata/set_access_key_and_secret/set_dimension/set_enable_multiscale/copy/destroy with NULL, empty, long and unterminated strings, valid and invalid dimension arguments); every step replays the history on the real storage.c and compares every field with a value model; allocation ledger via --wrap; every reached state is also destroyed and must leave no allocation; for histories of up to 3 calls the last call is repeated with each of its allocation requests failing in turn (judged: strings keep a live NUL-terminated buffer of their own or are unset, nothing shared or released twice, no crash, nothing left after destroying everything)',
+                    'events': {k: d[k] for k in ('copies', 'copies_from_source_with_dimensions', 'destroys', 'final_state_checks', 'runs_with_an_allocation_failure')},
                     'samples': d['samples'] or ['(none)']}
     rep.assumptions = ['states are merged on (model value, allocation size behind every stored string)', 'freed blocks are quarantined and zero-scrubbed so that use-after-release is deterministic']
     rep.finish()
@@ -90,8 +90,8 @@ def run_c14(tier):
     args = [['--cycles', '2', '--dev', '2'], ['--cycles', '3', '--dev', '1']] if tier == 'quick' else [['--cycles', '2', '--dev', '3'], ['--cycles', '3', '--dev', '2']]
     rep, tot, samples, per, ex = _simple('C14', tier, 'c14_raw', args, '', [])
     rep.coverage = {'states': tot.get('histories', 0) or 1, 'transitions': tot.get('runs', 0) or 1, 'traces_validated_against_impl': tot.get('runs', 0), 'exhaustive': ex,
-                    'rule': 'every history of 1-3 set/start/append*/stop cycles on one raw device (1-3 frames of 104/112/120 bytes per cycle, every grouping into packets, plain / file:// / short relative URI per cycle) x every placement of <= d deviations (short by 1, 1 byte, 0 bytes) over the pwrite calls; each run executes the real raw.c, HAL storage.c and platform.c file_write on real files; states = histories, transitions = runs',
-                    'events': {k: tot.get(k, 0) for k in ('runs_with_short_or_zero_writes', 'runs_judged', 'multi_cycle_histories')},
+                    'rule': 'every history of 1-3 set/start/append*/stop cycles on one raw device (1-3 frames of 104/112/120 bytes per cycle, every grouping into packets, plain / file:// / short relative URI per cycle) x every placement of <= d deviations (short by 1, 1 byte, 0 bytes) over the pwrite calls, three consecutive stalls, an interrupted write (EINTR) at every pwrite index alone and right after a short write, a second raw device pointed at the file being recorded, a rejected live set; a refused append leaves the accepted packets unchanged at the front of the file; each run executes the real raw.c, HAL storage.c and platform.c file_write on real files; states = histories, transitions = runs',
+                    'events': {k: tot.get(k, 0) for k in ('runs_with_short_or_zero_writes', 'runs_with_an_interrupted_write', 'runs_with_a_second_device_on_the_same_file', 'runs_with_a_rejected_live_set', 'runs_judged', 'multi_cycle_histories')},
                     'bounds': {'configurations': per}, 'samples': samples or ['(none)']}
     rep.assumptions = ['the interposed pwrite/open/close model the kernel: a short write returns fewer bytes than asked and writes exactly those', 'different paths per cycle (the property speaks of earlier acquisitions to other paths)']
     rep.finish()
@@ -101,7 +101,7 @@ def run_c15(tier):
     args = [['--cycles', '1'], ['--cycles', '2']]
     rep, tot, samples, per, ex = _simple('C15', tier, 'c15_tiff', args, '', [])
     rep.coverage = {'states': tot.get('runs', 0) or 1, 'transitions': tot.get('files_parsed', 0) or 1, 'traces_validated_against_impl': tot.get('files_parsed', 0), 'exhaustive': ex,
-                    'rule': 'full product kind{tiff,tiff-json} x shape{1x1,3x2,5x1,33x3} x 8 sample types x N{1,2,3} x every grouping into packets x metadata{none,{},nested} x pixel scale{(1,1),(0.5,2),(0,0)} x URI{plain,file://} for one cycle, and a second start/stop cycle (other N / metadata) on a sub-product; every file is written by the real tiff.cpp / side-by-side-tiff.cpp through the HAL and parsed by an independent BigTIFF reader + JSON parser; states = device histories, transitions = files parsed',
+                    'rule': 'full product kind{tiff,tiff-json} x shape{1x1,3x2,5x1,33x3} x 8 sample types x N{1,2,3} x every grouping into packets x metadata{none,{},nested} x pixel scale{(1,1),(0.5,2),(0,0)} x URI{plain,file://} for one cycle, and a second start/stop cycle (other N / metadata) on a sub-product; description-length sweep and a metadata-content sweep (format directives, escapes, nested arrays; forked per run); short-write and failing-write plans; 5 frames of 1 GiB (sparse); every file is written by the real tiff.cpp / side-by-side-tiff.cpp through the HAL and parsed by an independent BigTIFF reader + JSON parser; states = device histories, transitions = files parsed',
                     'events': {k: tot.get(k, 0) for k in ('runs', 'files_parsed', 'configurations_refused_by_the_device')},
                     'bounds': {'configurations': per}, 'samples': samples or ['(none)']}
     rep.assumptions = ['the independent reader and JSON parser in c15_tiff.cpp are the trusted base', 'strip tails beyond the image bytes (8-byte padding) are tolerated: the property asks for the pixel bytes unchanged', 'tag order / resolution tags are not judged (not part of the property)']
@@ -113,7 +113,7 @@ def run_c16(tier):
     args = [['--kind', k, '--depth', depth] for k in ('3', '4', '5', '6')]
     rep, tot, samples, per, ex = _simple('C16', tier, 'c16_faults', args, '', [])
     rep.coverage = {'states': tot.get('histories', 0) or 1, 'transitions': tot.get('runs', 0) or 1, 'traces_validated_against_impl': tot.get('runs', 0), 'exhaustive': ex,
-                    'rule': 'for raw, tiff, trash and tiff-json: every history open;{set,start,append,stop}^<=depth;close x {no fault, the j-th create fails, every create fails, the k-th write fails once, every write from the k-th on fails, two writes fail}; each run in a forked child with a 4 MiB stack and a 10 s alarm (crash / unbounded recursion / hang are verdicts); descriptor ledger in the interposed open/close/pwrite with foreign descriptors opened and closed between calls',
+                    'rule': 'for raw, tiff, trash and tiff-json: every history open;{set,start,append,stop}^<=depth;close x {no fault, the j-th create fails, every create fails, the k-th write fails once, every write from the k-th on fails, two writes fail, the j-th close reports an error, the file lock is refused, other errno values and stalls, descriptor 0 free when the device creates its files}; each run in a forked child with a 4 MiB stack and a 10 s alarm (crash / unbounded recursion / hang are verdicts); descriptor ledger in the interposed open/close/pwrite with foreign descriptors opened and closed between calls',
                     'events': {k: tot.get(k, 0) for k in ('histories', 'runs', 'runs_with_faults')},
                     'bounds': {'configurations': per}, 'samples': samples or ['(none)']}
     rep.assumptions = ['write failures inside start() (tiff header, metadata.json) are only judged for crashes and descriptor discipline: the property asks for the report by the end of a failing append', 'EIO / EACCES stand for every errno']
@@ -171,8 +171,8 @@ def run_c12(tier):
                 tot[k] = tot.get(k, 0) + v
     shutil.rmtree(root, ignore_errors=True)
     rep.coverage = {'states': tot.get('patterns', 0) or 1, 'transitions': tot.get('select_calls', 0) or 1, 'traces_validated_against_impl': tot.get('select_calls', 0), 'exhaustive': ex,
-                    'rule': 'for each of the 16 subsets of optional driver libraries: enumerate, get every index 0..count+2, open every enumerated identifier, select with every DeviceKind value 0..7, 100, -1, and with every byte string up to the length over {r a w t . * + ? | ( ) [ ] \\\\ - : space NUL R} plus whole-name / prefix / suffix / case-flipped / NUL-padded / escaped / 255-byte variants of every enumerated name; strong oracle: first enumerated device of the kind whose whole name matches per an independent Thompson-NFA matcher; weak oracle outside the matcher\'s subset',
-                    'events': {k: tot.get(k, 0) for k in ('select_calls', 'judged_by_reference_matcher', 'weak_oracle_only', 'get_calls', 'devices_opened', 'devices_enumerated')},
+                    'rule': 'for each of the 16 subsets of optional driver libraries: enumerate, get every index 0..count+2, open every enumerated identifier, select with every DeviceKind value 0..7, 100, -1, and with every byte string up to the length over {r a w t . * + ? | ( ) [ ] \\\\ - : space NUL R} plus whole-name / prefix / suffix / case-flipped / NUL-padded / escaped / 255-byte variants of every enumerated name; strong oracle: first enumerated device of the kind whose whole name matches per an independent Thompson-NFA matcher; weak oracle outside the matcher\'s subset, but a pattern that is malformed beyond doubt (unclosed parenthesis or bracket expression, no escapes) must give an error; plus every sequence of three selections (with repetition) over a menu of well-formed, non-matching and malformed patterns on one manager: answers do not depend on the history',
+                    'events': {k: tot.get(k, 0) for k in ('select_calls', 'judged_by_reference_matcher', 'weak_oracle_only', 'malformed_beyond_doubt', 'select_history_sequences', 'get_calls', 'devices_opened', 'devices_enumerated')},
                     'bounds': {'configurations': per}, 'samples': samples[:12] or ['(none)']}
     rep.assumptions = ['patterns longer than the bound are not enumerated (the property quantifies over all strings up to 255 bytes)', 'the reference matcher covers literals, ., classes, \\d\\s\\w and identity escapes of punctuation, * + ? (lazy too), |, groups; everything else is judged by the weak oracle']
     rep.finish()
